@@ -8,6 +8,7 @@ from pmon.gen import strings as S, trees as T
 from pmon.checks import _text
 
 ID = 'C07'
+PYTEST_LAW = 'C07'     # also run /repo's own tests with this property's law attached
 RULE = ('bounded-exhaustive strings over the 26-character delimiter alphabet (quick: length<=3 '
         'plus a seeded slice of length 4; thorough: length<=4 complete, length 5 over a '
         '14-character sub-alphabet), exhaustive token sequences over 22 tokens joined with and '
@@ -107,6 +108,12 @@ def oracle(ctx, kind, p):
         ctx.case(s, True)
         if acc and p['depth'] >= 199:
             ctx.count('deep_ok')
+        # the harness must not eat the stack the code under test needs (DESIGN 2.3)
+        from pmon import monitors
+        import sys
+        ctx.counters['max_harness_frames'] = max(ctx.counters.get('max_harness_frames', 0),
+                                                 monitors.stack_depth())
+        ctx.notes['recursion_limit_during_code_under_test'] = sys.getrecursionlimit()
         ctx.count('accepted' if acc else 'rejected')
     elif kind == 'rand':
         rng = ctx.rng('rand', p['i'])
